@@ -60,6 +60,14 @@ def counter_case(draw, tier):
     n = draw(st.integers(2, 7))
     pairs = [list(p) for p in combinations(range(n), 2)]
     edges = draw(st.lists(st.sampled_from(pairs), min_size=1, max_size=min(len(pairs), 11), unique_by=tuple))
+    if draw(st.integers(0, 3)) == 3:
+        # dense blocks joined by a sparse cut (edge connectivity below the minimum degree)
+        a = draw(st.integers(3, 4))
+        b = draw(st.integers(3, 7 - a))
+        n = a + b
+        edges = [list(p) for p in combinations(range(a), 2)] + [list(p) for p in combinations(range(a, n), 2)]
+        edges += [[draw(st.integers(0, a - 1)), draw(st.integers(a, n - 1))] for _ in range(draw(st.integers(1, 2)))]
+        edges = [list(e) for e in {tuple(e) for e in edges}]
     lab = list(range(n))
     if draw(st.booleans()):
         lab = [5 * i + 2 for i in range(n)]
